@@ -121,12 +121,23 @@ theorem c33_no_timer_after_stop (c : Cl) (t : Tx) (e : Err) (ht : c.getTx t.id =
 theorem c33_state_change_never_blocks (c : Cl) (s : CState) : ∃ c', c.setState s = c' := ⟨_, rfl⟩
 
 /-- **C33.** The end of a keep-alive exchange is nobody else's business: no API return, and the
-    group is cancelled only when the exchange ran out of retries (or the connection is gone). -/
+    group is not cancelled — unless the exchange ran out of retries (the gateway is gone). When no
+    tick was missed meanwhile nothing at all is sent. -/
 theorem c33_keepalive_result_private (c : Cl) (w : Wait) (t : Tx) (hw : w.kind = .plain) (hc : w.call = "#keepalive")
     (ht : c.getTx w.tx = some t) (hd : t.done = true) (he : t.err = .ok ∨ t.err = .keepaliveStopped)
-    (hn : w.committed = false) :
+    (hn : w.committed = false) (hm : c.kaMissed = false) :
     (c.settleOne w).outs = c.outs ∧ (c.settleOne w).cancelledAt = c.cancelledAt ∧ (c.settleOne w).kaPinging = false := by
   unfold settleOne
-  simp [ht, hd, hw, hc, he, hn]
+  rcases he with he | he <;> simp [ht, hd, hw, hc, he, hn, hm]
+
+/-- **C33.** A tick that came while the previous keep-alive PINGREQ was unanswered is not lost: when
+    that exchange ends successfully and the client is still active, the next PINGREQ goes out at once. -/
+theorem c33_missed_tick_served (c : Cl) (w : Wait) (t : Tx) (hw : w.kind = .plain) (hc : w.call = "#keepalive")
+    (ht : c.getTx w.tx = some t) (hd : t.done = true) (he : t.err = .ok) (hn : w.committed = false)
+    (hm : c.kaMissed = true) (hs : c.st = .active) (ha : c.alive = true) (ho : c.connClosed = false) :
+    (c.settleOne w).outs = (c.now, Out.sn (encode (.pingreq []))) :: c.outs := by
+  unfold settleOne
+  simp only [ht, hd, hn, Bool.not_false, and_self, if_true, hw, hc, he, hm, hs, ha]
+  exact (apiPing_open _ _ _ (by simpa using ho)).1
 
 end Bisquitt.Cl
